@@ -320,6 +320,15 @@ var genScenarios = map[string]func(g *Gen) []scriptStep{
 			pubStep(sT0, ""), pullStep(sS0, 10), ackLeased(sS0, "Ack", 0, false),
 			opStep(&Op{Kind: "SeekSnap", Name: seekWho, Name2: "projects/p/snapshots/n0"}),
 			pullStep(sS1, 10), pullStep(sS0, 10),
+			// ... and the other way round: each subscription is once the seeker, once the bystander
+			func(g *Gen, d *Dump, vnow int64) Action {
+				other := sS0
+				if seekWho == sS0 {
+					other = sS1
+				}
+				return Action{Op: &Op{Kind: "SeekSnap", Name: other, Name2: "projects/p/snapshots/n0"}}
+			},
+			pullStep(sS0, 10), pullStep(sS1, 10),
 		}
 	},
 	// same-key replay (C05): the successor has been delivered once when a seek brings its
@@ -342,6 +351,22 @@ var genScenarios = map[string]func(g *Gen) []scriptStep{
 			advStep(3 * time.Second), job("PruneCompletedDeliveries"), job("PruneCompletedMessages"),
 			pullStep(sS0, 10), pastLeases(sS0), pullStep(sS0, 10),
 		}
+	},
+	// one nack request naming deliveries of ONE subscription at DIFFERENT attempt counts, with a
+	// backoff small enough to carry no jitter (below 0.5 s): each is rescheduled by its own
+	// min*1.1^attempts, not by a delay shared across the request (C04)
+	"nack-mixed-attempts": func(g *Gen) []scriptStep {
+		s := []scriptStep{
+			opStep(&Op{Kind: "CreateTopic", Name: sT0}),
+			subStep(&SubReq{Name: sS0, Topic: sT0, Retry: retry(200 * time.Millisecond)}),
+			pubStep(sT0, ""),
+		}
+		for i := 0; i < 2+g.r.Intn(2); i++ {
+			s = append(s, pullStep(sS0, 10), ackLeased(sS0, "Nack", 0, false))
+		}
+		s = append(s, pullStep(sS0, 10), pubStep(sT0, "", ""), pullStep(sS0, 10),
+			ackLeased(sS0, "Nack", 0, false), pastLeases(sS0), pullStep(sS0, 10))
+		return s
 	},
 	"ordered-replay": func(g *Gen) []scriptStep {
 		return []scriptStep{
@@ -482,7 +507,7 @@ var genScenarios = map[string]func(g *Gen) []scriptStep{
 	},
 }
 
-var scenarioNames = []string{"ordered-replay", "ordered-prune", "dl-deleted-topic", "dl-ordered-target", "dl-filtered-target", "snapshot-bystander", "seek-revive-late", "idle-expired-live", "filter-replaced", "ordered-chain", "lease-changes"}
+var scenarioNames = []string{"ordered-replay", "ordered-prune", "nack-mixed-attempts", "dl-deleted-topic", "dl-ordered-target", "dl-filtered-target", "snapshot-bystander", "seek-revive-late", "idle-expired-live", "filter-replaced", "ordered-chain", "lease-changes"}
 
 // scenariosFor lists the templates a generator profile may start with
 func scenariosFor(profile string) []string {
